@@ -129,3 +129,15 @@ func VerifH_ErrorTrace() {
 	verifrt.Assert("C02.trace.line", int(e.includeTrace[0].atLine) == refLine(content, at, refNewline(content)))
 	verifrt.Reach("C02.trace.line2", e.includeTrace[0].atLine >= 2)
 }
+
+// verifStubNewLocation is the summary of NewLocation used by harnesses whose
+// subject is not the line/quote arithmetic: it never faults (discharged for
+// every content of up to N bytes and every index up to len+2 by
+// VerifH_LocationSpec) and records file and index; line and quote are not
+// observed by those harnesses.
+func verifStubNewLocation(f *fs.File, i bytes.Index) Location {
+	if f == nil {
+		panic("nil file")
+	}
+	return Location{file: f, index: i, line: 1}
+}
